@@ -28,12 +28,17 @@ SOURCES = {
     "in-function": BODY + "\n\ndef late():\n    import shapes16\n    return shapes16.SIDE\n\n\nLATE = late()\n",
     "type-checking-block": "from typing import TYPE_CHECKING\nif TYPE_CHECKING:\n    from other16 import Thing\n" + BODY,
     "typing-import": "from typing import List\n" + BODY + "\nL = List\n",
+    "try-type-checking": "import os\n" + BODY + "\ntry:\n    from typing import TYPE_CHECKING\nexcept ImportError:\n    TYPE_CHECKING = False\n",
+    "same-name-alias": "from shapes16 import Circle as Circle\n" + BODY + "\nKEEP = Circle\n",
+    "local-import-of-stub-name": BODY + "\n\ndef lazy():\n    from shapes16 import Circle  # needed at run time\n    return Circle()\n\n\nLAZY = lazy()\n",
+    "self-reference": "from typing import Optional\n\n\nclass Node:\n    def link(self, other):\n        return other\n" + BODY,
 }
 STUBS = {
     "new-user-class": "from shapes16 import Circle\ndef area(c: Circle, k: int = ...) -> int: ...\n",
     "two-modules": "from other16 import Thing\nfrom shapes16 import Circle\ndef area(c: Circle, k: int = ...) -> int: ...\ndef make() -> Thing: ...\n",
     "typing-names": "from typing import List, Optional\ndef area(c: Optional[int], k: int = ...) -> int: ...\ndef make() -> List[int]: ...\n",
     "already-imported": "from shapes16 import Square\ndef area(c: Square, k: int = ...) -> int: ...\n",
+    "only-existing-imports": "from typing import Optional\nclass Node:\n    def link(self, other: Optional[Node]) -> Optional[Node]: ...\ndef area(c: Optional[int], k: int = ...) -> int: ...\n",
     "typed-dict": "from mypy_extensions import TypedDict\nfrom shapes16 import Circle\n\n\nclass CTypedDict__RENAME_ME__(TypedDict):\n    a: int\n\n\ndef area(c: 'CTypedDict__RENAME_ME__', k: int = ...) -> Circle: ...\n",
 }
 
